@@ -63,6 +63,16 @@ CHECKS = {
             'Nothing about Raman solver numerics (low-power limit, method agreement, pumps) is decided.',
             'value graph + call-sequence (typestate) check + writer enumeration',
             'DESIGN.md 4 C05'),
+    'C07': ('other',
+            'One permutation for all 16 per-channel arrays and both constructor rejections evaluated on the sorted arrays '
+            '(value graph); field-by-field mapping at every mux/demux constructor site; the recursive mux folds the whole '
+            'list; the pre-propagation filter dominates the first element call in both propagation functions and is built '
+            'from the pairwise band intersection over all amplifiers with whole-value duplicate removal; the multiband '
+            'dispatch demuxes on each own band, collects each output and muxes all; carrier lists built in one iteration '
+            'order; in-band test on slot edges, bounds included.',
+            'Disjointness of the bands of one multiband element is data and not decided.',
+            'value graph + CFG dominance (filter once) + structural field/loop mapping checks',
+            'DESIGN.md 4 C07'),
     'C09': ('other',
             'Gated value graphs of compute_gain_power_and_tilt_target (all 16 mode/offset/VOA arms), target_power, '
             'set_one_amplifier (state before and after the VOA step, per arm) and set_amplifier_voa compared with the '
